@@ -69,6 +69,12 @@ def bit_blocks(rng: random.Random, sizes: List[int], w: int) -> List[Block]:
     add("not", "bit.not {v0}", 1, 1, name="bit.not(1)")
     add("if", "bit.if {v0}, {l0}, {l1}", 1, 1, branches=("l0", "l1"), name="bit.if(3)")
     add("cmp", "bit.cmp {v0}, {v1}, {lt}, {eq}, {gt}", 2, 1, branches=("lt", "eq", "gt"), name="bit.cmp(5)")
+    # the exact variants: the destination is a BIT ADDRESS (here: the data bit of digit sh of a variable)
+    for k in (0, 1, 5):
+        add("xor_at", "bit.exact_not {v0}+dbit+{sh}*dw", 1, 1, m=0, sh=k)
+        add("xor_at", "bit.exact_xor {v0}+dbit+{sh}*dw, {v1}", 2, 1, m=1, sh=k)
+    add("xor_at2", "bit.double_exact_xor {v0}+dbit+{sh}*dw, {v1}+dbit+{m}*dw, {v2}", 3, 1, m=3, sh=2)
+    add("mov", "bit.unsafe_mov {v0}, {v1}", 2, 1, name="bit.unsafe_mov")
     add("inc1b", "bit.inc1 {v0}, {v1}", 2, 1)
     add("add1b", "bit.add1 {v0}, {v1}, {v2}", 3, 1)
     return B
@@ -111,7 +117,7 @@ def run_width(chk: Check, fjm_run, w, sizes, nseq, maxlen, npairs, rng, engine="
     if w == 16:
         # 2^16 bits of address space = 2048 ops: no room for the hex tables, and only for a few small blocks
         init = "stl.startup"
-        cheap = {"zero", "one", "mov", "swap", "xor", "xor_zero", "or", "and", "not", "if", "if0", "if1", "cmp", "shr", "shl", "shra", "ror", "rol",
+        cheap = {"xor_at", "xor_at2", "zero", "one", "mov", "swap", "xor", "xor_zero", "or", "and", "not", "if", "if0", "if1", "cmp", "shr", "shl", "shra", "ror", "rol",
                  "inc", "dec", "neg", "add", "sub", "inc1b", "add1b"}
         blocks = [b for b in blocks if b.key in cheap]
     arena, blocks = assemble_blaming(chk, lambda bl: Arena(fjm_run, w, "bit", VARS, ND if w > 16 else 12, bl, engine=engine, init=init), blocks,
